@@ -95,8 +95,58 @@ Definition run_req (orc : oracle) (s : sexp) : sexp :=
   | _ => bad_input
   end.
 
+(* ---- downstream stages on the projection (Model/Downstream.v):
+     (4 rows batch n_chunks policy slots)   policy = () | (k);  slots = ((plate id, score key) ...)
+        -> ( (result ((plate id (row position ...)) ...)) per chunk index 0 .. n_chunks-1     what score_chunk hands the scorer
+             result (option plate id) )                                                  select_next_plate on a holder with these slots
+     (5 via rows)                      ComboGridFactorModel (via as in 0)  -> result ((sample id, y) ...)
+     (6 arity rows)                    -> (option table, option table): single_treatment_effects of subset_observed() as coded /
+                                          computed from the observed rows only; a table = one list of ovals per observed row ---- *)
+From Batchie Require Import Model.Downstream.
+From Batchie Require Model.Scores Model.Policy.
+
+Definition run_req_down (orc : oracle) (s : sexp) : sexp :=
+  match s with
+  | SL [SZ 4; rows; batch; SZ n; policy; slots] =>
+      match as_listof as_wrow rows, as_Zs batch, as_option as_Z policy, as_listof (as_pair as_Z as_Z) slots with
+      | Some w, Some batch, Some policy, Some slots =>
+          let v := downstream_input (map fst w) in
+          let scr := dn_scores_screen v in
+          SL [ of_list (fun k => of_result (of_list (fun p => SL [SZ (fst p); of_list (fun ir => of_nat (fst ir)) (snd p)]))
+                                   (Scores.score_chunk scr batch n (Z.of_nat k)))
+                       (seq 0 (Z.to_nat n));
+               of_result (of_option SZ)
+                 (match policy with
+                  | None => Scores.select_next None scr batch (Scores.mkholder (Z.of_nat (length slots)) slots (length slots))
+                  | Some k => dor r <- Policy.select_next k (dn_policy_plates v) slots batch; Ok (snd r)
+                  end) ]
+      | _, _, _, _ => bad_input
+      end
+  | SL [SZ 5; SZ via; rows] =>
+      (* ComboGridFactorModel: (sample id, clipped y) per trained row; the per-row unpack function only keeps the sample id *)
+      match as_listof as_wrow rows with
+      | Some w =>
+          let rows := map fst w in
+          let u : unpack_fn unit := fun s _ => (s, 0, 0, tt, tt) in
+          of_result (of_list (fun t => SL [SZ (match gt_u t with (s, _, _, _, _) => s end); of_oval (gt_y t)]))
+            (if via =? 0 then grid_add u [] rows
+             else if via =? 1 then train_grid u rows
+             else grid_inner u [] rows)
+      | None => bad_input
+      end
+  | SL [SZ 6; arity; rows] =>
+      match as_nat arity, as_listof as_wrow rows with
+      | Some arity, Some w =>
+          let rows := map fst w in
+          SL [ of_option (of_list (of_list of_oval)) (subset_observed_single_effects arity rows);
+               of_option (of_list (of_list of_oval)) (subset_observed_single_effects_repaired arity rows) ]
+      | _, _ => bad_input
+      end
+  | _ => run_req orc s
+  end.
+
 Definition run_c04 (orc : oracle) (s : sexp) : sexp :=
   match s with
-  | SL reqs => SL (map (run_req orc) reqs)
+  | SL reqs => SL (map (run_req_down orc) reqs)
   | _ => bad_input
   end.
